@@ -37,7 +37,7 @@ Definition find_dup (ns : list snode) (lvl : nat) (cs : list Z) : option snode :
 Definition upd_cnt (f : Z -> nat) (id : Z) (v : nat) : Z -> nat :=
   fun x => if x =? id then v else f x.
 
-Definition incr (f : Z -> nat) (id : Z) : Z -> nat :=
+Definition bump (f : Z -> nat) (id : Z) : Z -> nat :=
   if 0 <? id then upd_cnt f id (S (f id)) else f.
 
 Definition remove_node (ns : list snode) (id : Z) : list snode :=
@@ -92,11 +92,11 @@ Definition sstep (s : store) (o : sop) : store :=
       else
         match find_dup (st_nodes s) lvl cs with
         | Some n =>
-            {| st_nodes := st_nodes s; st_cnt := incr (st_cnt s) (sn_id n);
+            {| st_nodes := st_nodes s; st_cnt := bump (st_cnt s) (sn_id n);
                st_names := (nm, sn_id n) :: st_names s; st_next := st_next s |}
         | None =>
             let id := st_next s in
-            let cnt1 := fold_left incr cs (st_cnt s) in
+            let cnt1 := fold_left bump cs (st_cnt s) in
             {| st_nodes := {| sn_id := id; sn_lvl := lvl; sn_cs := cs |} :: st_nodes s;
                st_cnt := upd_cnt cnt1 id 1%nat;
                st_names := (nm, id) :: st_names s; st_next := id + 1 |}
@@ -104,7 +104,7 @@ Definition sstep (s : store) (o : sop) : store :=
   | SDup nm' nm =>
       match lookup_name (st_names s) nm with
       | Some id =>
-          {| st_nodes := st_nodes s; st_cnt := incr (st_cnt s) id;
+          {| st_nodes := st_nodes s; st_cnt := bump (st_cnt s) id;
              st_names := (nm', id) :: st_names s; st_next := st_next s |}
       | None => s
       end
